@@ -778,6 +778,85 @@ def names_cli(ctx, broken):
                 "violation": {"kind": "names-model", "what": "number of names differs from the number of arguments", "impl": len(got), "model": len(mod), "files": len(files)}}
     return {"summary": {"evaluations": evals, "nontrivial": nontriv, "arguments": stats}}
 
+
+def filelist_cli(ctx, broken):
+    """The -f file list (get_input_list) and the names file of ska delete (read_name_list) in-process vs the
+    model Impl/FileList.lean (about which T03_filelist_roundtrip / _crlf / _no_final_newline / _blank_line,
+    T03_namelist and the T03_split_* lemmas are proved) and vs the written entries."""
+    rnd = random.Random(ctx.seed * 15485863 + 11)
+    thorough = ctx.tier == "thorough"
+    seps = ["\t", " ", "  ", "\t\t", " \t", "\u00a0", "\u3000", "\x0b", "\x0c", "\u2003", "\u0085"]
+    def field():
+        return "".join(rnd.choice("abXY01_-./\u00e9\u017f:,") for _ in range(rnd.choice([1, 2, 6, 15])))
+    cases = []          # (content, expected entries or None = unspecified / "panic")
+    def entry():
+        return (field(), field(), field() if rnd.random() < 0.4 else None)
+    def line(e, sep=None):
+        fs = [e[0], e[1]] + ([e[2]] if e[2] is not None else [])
+        return "".join(f + (sep or rnd.choice(seps)) for f in fs[:-1]) + fs[-1]
+    for _ in range(120 if thorough else 40):
+        es = [entry() for _ in range(rnd.choice([0, 1, 2, 5, 12]))]
+        style = rnd.choice(["tab-lf", "tab-crlf", "mixed", "nofinal", "padded"])
+        if style == "tab-lf":
+            content = "".join(line(e, "\t") + "\n" for e in es)
+        elif style == "tab-crlf":
+            content = "".join(line(e, "\t") + "\r\n" for e in es)
+        elif style == "mixed":
+            content = "".join(line(e) + rnd.choice(["\n", "\r\n"]) for e in es)
+        elif style == "nofinal":
+            content = "\n".join(line(e) for e in es)
+        else:
+            content = "".join(rnd.choice(["", " ", "\t"]) + line(e) + rnd.choice(["", " ", "\t ", "\r"]) + "\n" for e in es)
+        cases.append((content, es))
+    # refused lists: a blank line, one field, four fields - anywhere
+    for _ in range(60 if thorough else 20):
+        es = [entry() for _ in range(rnd.randint(0, 4))]
+        lines_ = [line(e, "\t") for e in es]
+        bad = rnd.choice(["", " ", "\t", "\r", field(), field() + " " + field() + " " + field() + " " + field(), "\u00a0"])
+        lines_.insert(rnd.randint(0, len(lines_)), bad)
+        cases.append(("\n".join(lines_) + "\n", "panic"))
+    for content in ["", "\n", "\r\n", "a b", "a b\n", "a b c\n", "a b c d\n", "a\u00a0b x\n", "a b\rc\n", "a b\r\r\n", "\ufeffa b\n", "a b\n\n", "a b\nc d"]:
+        cases.append((content, None))
+    hx = lambda t: t.encode("utf-8").hex() if t else "."
+    lines = [f"filelist content={hx(c)}" for c, _ in cases]
+    impl = core.run_impl(ctx, lines, "filelist")
+    model = core.run_model(ctx, lines)
+    evals = nontriv = 0
+    stats = {"accepted": 0, "refused": 0, "entries": 0, "with_second_file": 0}
+    for (content, want), ln, r, (m, _) in zip(cases, lines, impl, model):
+        evals += 1
+        ri = kvs(r)
+        if want == "panic":
+            exp = "panic"
+        elif want is not None:
+            exp = ",".join(f"{hx(a)}:{hx(b)}:{hx(c2) if c2 is not None else '-'}" for a, b, c2 in want) or "~"
+        else:
+            exp = None
+        if exp is not None and ri.get("list") != exp:
+            return {"summary": {"evaluations": evals, "nontrivial": nontriv},
+                    "violation": {"kind": "filelist-spec", "what": "the file list is not read back as written (T03_filelist_roundtrip / _blank_line)",
+                                  "content": content, "impl": ri.get("list", "")[:400], "expected": exp[:400], "model_case": ln}}
+        if want not in (None, "panic"):
+            expn = ",".join(hx(a) for a, _, _ in want) or "~"
+            if ri.get("names") != expn:
+                return {"summary": {"evaluations": evals, "nontrivial": nontriv},
+                        "violation": {"kind": "filelist-spec", "what": "the names file does not yield the first field of every line (T03_namelist)",
+                                      "content": content, "impl": ri.get("names", "")[:400], "expected": expn[:400], "model_case": ln}}
+        if r != m:
+            return {"summary": {"evaluations": evals, "nontrivial": nontriv},
+                    "violation": {"kind": "filelist-model", "what": "model of get_input_list / read_name_list and the code disagree", "content": content,
+                                  "impl": r[:400], "model": m[:400], "model_case": ln}, "no_input": exp is not None}
+        if ri.get("list") == "panic":
+            stats["refused"] += 1
+        else:
+            stats["accepted"] += 1
+            items = [] if ri.get("list") == "~" else ri["list"].split(",")
+            stats["entries"] += len(items)
+            stats["with_second_file"] += sum(1 for it in items if not it.endswith(":-"))
+        if content.strip():
+            nontriv += 1
+    return {"summary": {"evaluations": evals, "nontrivial": nontriv, "lists": stats}}
+
 def c09_snappy_cli(ctx, broken):
     """C09, compression layer: every block the real compressor (snap, behind MergeSkaArray::save) writes is
     checked against the hypothesis of T09_snappy_block - it parses as an element stream of the format,
@@ -907,6 +986,46 @@ def c09_cli(ctx, broken):
             results[order] = {key: (cells if order[0] == "low" else cells[::-1]) for key, cells in info["rows"].items()}
         if results[("low", "norm")] != results[("norm", "low")]:
             return {"summary": {"evaluations": evals, "nontrivial": nontriv}, "violation": {"kind": "c09-cli", "what": "merge order changes the table", "k": k, "low": lowA, "normal": normal}}
+        # three and four files in one command, every order: a k-mer present in an earlier file, absent from
+        # the next and present again later must keep its columns (files can be merged in any order)
+        write_fasta(os.path.join(d, "other.fa"), [rand_genome(rnd, 2 * k + 7)])
+        write_fasta(os.path.join(d, "low2.fa"), [mutate(rnd, lowA, 1)])
+        for name in ("other", "low2"):
+            ska(["build", "-o", os.path.join(d, name), "-k", str(k), os.path.join(d, name + ".fa")], d)
+        import itertools
+        ref_table = None
+        orders = list(itertools.permutations(("low", "other", "norm"))) + [("low", "other", "low2", "norm"), ("norm", "low2", "other", "low"), ("low2", "norm", "low", "other")]
+        for order in orders:
+            code, out, err = ska(["merge"] + [os.path.join(d, n + ".skf") for n in order] + ["-o", os.path.join(d, "m3")], d)
+            evals += 1
+            if code != 0:
+                return {"summary": {"evaluations": evals, "nontrivial": nontriv},
+                        "violation": {"kind": "c09-cli", "what": f"merge {order} failed", "stderr": err[-300:], "k": k, "low": lowA, "normal": normal}}
+            code, out, err = ska(["nk", "--full-info", os.path.join(d, "m3.skf")], d)
+            info = parse_nk(out)
+            if info.get("names") != list(order):
+                return {"summary": {"evaluations": evals, "nontrivial": nontriv},
+                        "violation": {"kind": "c09-cli", "what": "merged sample names are not those of the inputs in order", "order": order, "names": info.get("names"), "k": k}}
+            table = {key: {n: c for n, c in zip(order, cells) if n != "low2" or len(order) == 4} for key, cells in info["rows"].items()}
+            if len(order) == 3:
+                if ref_table is None:
+                    ref_table = table
+                elif table != ref_table:
+                    bad = [key for key in set(table) | set(ref_table) if table.get(key) != ref_table.get(key)][:3]
+                    return {"summary": {"evaluations": evals, "nontrivial": nontriv},
+                            "violation": {"kind": "c09-cli", "what": "merge order changes the table (three files)", "order": order, "k": k,
+                                          "examples": [{"kmer": str(key), "this": table.get(key), "first_order": ref_table.get(key)} for key in bad],
+                                          "low": lowA, "normal": normal}}
+            else:
+                # restricted to the three common files the four-file merge must agree with the three-file one,
+                # rows that only low2 holds aside
+                sub = {key: {n: c for n, c in row.items() if n != "low2"} for key, row in table.items()}
+                sub = {key: row for key, row in sub.items() if any(c != "-" for c in row.values())}
+                if sub != ref_table:
+                    bad = [key for key in set(sub) | set(ref_table) if sub.get(key) != ref_table.get(key)][:3]
+                    return {"summary": {"evaluations": evals, "nontrivial": nontriv},
+                            "violation": {"kind": "c09-cli", "what": "merge order changes the table (four files)", "order": order, "k": k,
+                                          "examples": [{"kmer": str(key), "this": sub.get(key), "three_files": ref_table.get(key)} for key in bad]}}
         for args in (["map", os.path.join(d, "norm.fa"), os.path.join(d, "low.skf")],
                      ["weed", os.path.join(d, "low.skf"), os.path.join(d, "norm.fa"), "-o", os.path.join(d, "w.skf"), "--min-freq", "0"],
                      ["nk", os.path.join(d, "low.skf")], ["distance", os.path.join(d, "m_low.skf")], ["align", os.path.join(d, "m_low.skf")]):
@@ -2684,6 +2803,171 @@ def c08_big_cli(ctx, broken):
     return {"summary": {"evaluations": evals, "nontrivial": nontriv, "rows": len(want[1]),
                         "what": "delete on a file of more than 65536 split k-mers vs the build of the remaining samples"}, "samples": []}
 
+
+
+def c08_names_cli(ctx, broken):
+    """sample names as the command line hands them over: a name is one argument, whatever it contains
+    (comma, semicolon, colon, equals sign, blank, dot, a name that is a prefix or a comma-join of others);
+    deleting it removes exactly that sample (T08_delete_eq_build is the oracle), others untouched"""
+    rnd = random.Random(ctx.seed * 982451653 + 13)
+    evals = nontriv = 0
+    d = fresh_dir(ctx, "c08names")
+    k = rnd.choice([15, 31, 33])
+    base = rand_genome(rnd, 400)
+    names = ["iso1", "iso2", "iso1,iso2", "iso1;iso2", "iso 3", "iso1=x", "iso:4", "iso1.", "is"]
+    lst = os.path.join(d, "in.list")
+    with open(lst, "w") as fh:
+        for i, nm in enumerate(names):
+            f = os.path.join(d, f"f{i}.fa")
+            write_fasta(f, [mutate(rnd, base, 4)])
+            # a blank cannot travel through the white-space separated list: that sample gets its name via the file name
+            fh.write(f"{nm.replace(' ', '_')}\t{f}\n")
+    names = [n.replace(" ", "_") for n in names]
+    code, out, err = ska(["build", "-o", os.path.join(d, "all"), "-k", str(k), "-f", lst], d)
+    if code != 0:
+        return {"summary": {"evaluations": 0, "nontrivial": 0}, "violation": {"kind": "c08-names", "what": "build failed", "stderr": err[-300:]}}
+    full = parse_nk(ska(["nk", "--full-info", os.path.join(d, "all.skf")], d)[1])
+    if full.get("names") != names:
+        return {"summary": {"evaluations": 1, "nontrivial": 0}, "violation": {"kind": "c08-names", "what": "names of the built file are not those of the list", "names": full.get("names"), "expected": names}}
+    for gone in ([names[2]], [names[3]], [names[5], names[6]], [names[8]], [names[7], names[0]], [names[2], names[1]]):
+        for style in (0, 1):
+            if style == 0:
+                args = ["delete", "-s", os.path.join(d, "all.skf"), "-o", os.path.join(d, "dd")] + gone
+            else:
+                nf = os.path.join(d, "gone.txt")
+                open(nf, "w").write("\n".join(gone) + "\n")
+                args = ["delete", "-s", os.path.join(d, "all.skf"), "-o", os.path.join(d, "dd"), "-f", nf]
+            if os.path.exists(os.path.join(d, "dd.skf")):
+                os.remove(os.path.join(d, "dd.skf"))
+            code, out, err = ska(args, d)
+            evals += 1
+            nontriv += 1
+            got = parse_nk(ska(["nk", "--full-info", os.path.join(d, "dd.skf")], d)[1]) if code == 0 else None
+            keep_idx = [i for i, n in enumerate(names) if n not in gone]
+            want_names = [names[i] for i in keep_idx]
+            want_rows = {}
+            for key, cells in full["rows"].items():
+                row = [cells[i] for i in keep_idx]
+                if any(c != "-" for c in row):
+                    want_rows[key] = row
+            if got is None or got.get("names") != want_names or got["rows"] != want_rows:
+                return {"summary": {"evaluations": evals, "nontrivial": nontriv},
+                        "violation": {"kind": "c08-names", "what": "ska delete did not remove exactly the named samples",
+                                      "deleted": gone, "how": "names on the command line" if style == 0 else "-f names file", "exit": code,
+                                      "names_after": (got.get("names") if got else None), "expected_names": want_names,
+                                      "rows_after": (len(got["rows"]) if got else None), "rows_expected": len(want_rows), "k": k, "stderr": err[-200:]}}
+    return {"summary": {"evaluations": evals, "nontrivial": nontriv, "what": "delete of samples whose names contain , ; : = . or are prefixes / joins of other names, on the command line and via -f"}}
+
+
+def c11_scale_cli(ctx, broken):
+    """thread count on files past the sizes at which parallel routes switch on: a file of more than 32768
+    (thorough: more than 131072) split k-mers through distance / align / map / weed / nk with --threads
+    1, 2, 4 (and the read build with 1, 3): same bytes, same exit status; distance of two samples that
+    differ by isolated SNPs must be the planted count"""
+    rnd = random.Random(ctx.seed * 67867967 + 19)
+    thorough = ctx.tier == "thorough"
+    evals = nontriv = 0
+    d = fresh_dir(ctx, "c11scale")
+    k = rnd.choice([21, 31])
+    L = 140000 if thorough else 36000
+    base = rand_genome(rnd, L)
+    nsnp = 7
+    pos = sorted(rnd.sample(range(1, L // (3 * k)), nsnp))
+    sq = list(base)
+    for p_ in pos:
+        q = p_ * 3 * k
+        sq[q] = rnd.choice([x for x in "ACGT" if x != sq[q]])
+    write_fasta(os.path.join(d, "a.fa"), [base], wrap=80)
+    write_fasta(os.path.join(d, "b.fa"), ["".join(sq)], wrap=80)
+    code, out, err = ska(["build", "-o", os.path.join(d, "ab"), "-k", str(k), os.path.join(d, "a.fa"), os.path.join(d, "b.fa")], d)
+    if code != 0:
+        return {"summary": {"evaluations": 0, "nontrivial": 0}, "violation": {"kind": "c11-scale", "what": "build failed", "stderr": err[-300:]}}
+    skf = os.path.join(d, "ab.skf")
+    cmds = {
+        "distance": lambda t: ["distance", skf, "--threads", str(t)],
+        "distance-filt": lambda t: ["distance", skf, "--threads", str(t), "--allow-ambiguous", "--min-freq", "1"],
+        "align": lambda t: ["align", skf, "--threads", str(t)],
+        "align-files": lambda t: ["align", os.path.join(d, "a.fa"), os.path.join(d, "b.fa"), "--threads", str(t)],
+        "map": lambda t: ["map", os.path.join(d, "a.fa"), skf, "--threads", str(t)],
+        "map-vcf": lambda t: ["map", os.path.join(d, "a.fa"), skf, "--threads", str(t), "-f", "vcf"],
+    }
+    for name, mk in cmds.items():
+        ref = None
+        for t in (1, 2, 4):
+            code, out, err = ska(mk(t), d)
+            evals += 1
+            nontriv += 1
+            if name.startswith("align") and code == 0:
+                # the column order of an alignment is not part of the result (it follows the hash order of the build):
+                # names in order + the multiset of columns
+                recs = [r.split("\n", 1) for r in out.split(">")[1:]]
+                aseqs = [r[1].replace("\n", "") for r in recs]
+                out = repr(([r[0] for r in recs], sorted("".join(q[i] for q in aseqs) for i in range(len(aseqs[0]))) if aseqs and aseqs[0] else []))
+            res = (code, out)
+            if ref is None:
+                ref = res
+                if code != 0:
+                    return {"summary": {"evaluations": evals, "nontrivial": nontriv},
+                            "violation": {"kind": "c11-scale", "what": f"{name} failed with one thread", "stderr": err[-300:], "k": k, "length": L}}
+                if name == "distance":
+                    rows = [l.split("\t") for l in out.strip().splitlines()[1:]]
+                    if len(rows) != 1 or abs(float(rows[0][2]) - nsnp) > 1e-6:
+                        return {"summary": {"evaluations": evals, "nontrivial": nontriv},
+                                "violation": {"kind": "c11-scale", "what": "distance of two samples with isolated SNPs is not the planted count", "planted": nsnp, "output": out[:300], "k": k, "length": L}}
+            elif res != ref:
+                return {"summary": {"evaluations": evals, "nontrivial": nontriv},
+                        "violation": {"kind": "c11-scale", "what": f"{name}: --threads {t} differs from --threads 1 on a large file", "exit": [ref[0], code],
+                                      "stderr": err[-300:], "k": k, "length": L, "rows_about": L, "seed": ctx.seed}}
+    return {"summary": {"evaluations": evals, "nontrivial": nontriv, "split_kmers_about": 2 * L,
+                        "what": "distance / align / map on a file of more than 32768 split k-mers, --threads 1/2/4 byte for byte"}}
+
+
+def c13_iupac_cli(ctx, broken):
+    """weed sequences with ambiguity codes, lower case and N: the k-mers of a FASTA are the same whether it is
+    read as a sample (ska build) or as a weed file (T13_weed_fasta: the weed list is the split k-mers of the
+    records), so weeding a two-sample file with the FASTA of sample 0 leaves exactly the rows sample 0 does not
+    hold, cells unchanged; --reverse leaves exactly the rows it holds"""
+    rnd = random.Random(ctx.seed * 32452867 + 23)
+    thorough = ctx.tier == "thorough"
+    evals = nontriv = 0
+    for it in range(10 if thorough else 4):
+        d = fresh_dir(ctx, "c13iupac")
+        k = rnd.choice([7, 9, 15, 31, 33, 41])
+        L = rnd.choice([3 * k, 200, 500])
+        sq = list(rand_genome(rnd, L))
+        for _ in range(rnd.randint(1, 6)):
+            sq[rnd.randrange(L)] = rnd.choice("RYSWKMBDHVN")
+        for _ in range(rnd.randint(0, 4)):
+            q = rnd.randrange(L)
+            sq[q] = sq[q].lower()
+        s0 = "".join(sq)
+        cut = rnd.randrange(k, L - k) if L > 2 * k + 1 else None
+        recs0 = [s0] if cut is None or rnd.random() < 0.5 else [s0[:cut], s0[cut:]]
+        s1 = mutate(rnd, "".join(c if c in "ACGT" else "A" for c in s0.upper()), 3)
+        write_fasta(os.path.join(d, "s0.fa"), recs0)
+        write_fasta(os.path.join(d, "s1.fa"), [s1])
+        strand = ["--single-strand"] if rnd.random() < 0.3 else []
+        code, out, err = ska(["build", "-o", os.path.join(d, "x"), "-k", str(k)] + strand + [os.path.join(d, "s0.fa"), os.path.join(d, "s1.fa")], d)
+        if code != 0:
+            return {"summary": {"evaluations": evals, "nontrivial": nontriv}, "violation": {"kind": "c13-iupac", "what": "build failed", "stderr": err[-300:], "k": k}}
+        full = parse_nk(ska(["nk", "--full-info", os.path.join(d, "x.skf")], d)[1])
+        for rev in (False, True):
+            args = ["weed", os.path.join(d, "x.skf"), os.path.join(d, "s0.fa"), "-o", os.path.join(d, "w.skf"), "--min-freq", "0"] + (["--reverse"] if rev else [])
+            if os.path.exists(os.path.join(d, "w.skf")):
+                os.remove(os.path.join(d, "w.skf"))
+            code, out, err = ska(args, d)
+            evals += 1
+            got = parse_nk(ska(["nk", "--full-info", os.path.join(d, "w.skf")], d)[1]) if code == 0 else None
+            want = {key: cells for key, cells in full["rows"].items() if (cells[0] != "-") == rev}
+            if want:
+                nontriv += 1
+            if got is None or got["rows"] != want or got.get("names") != full.get("names"):
+                extra = [str(x) for x in (set(got["rows"]) - set(want))][:3] if got else None
+                return {"summary": {"evaluations": evals, "nontrivial": nontriv},
+                        "violation": {"kind": "c13-iupac", "what": "weeding with the FASTA a sample was built from does not remove (keep, with --reverse) exactly that sample's k-mers",
+                                      "reverse": rev, "k": k, "single_strand": bool(strand), "records": recs0, "other": s1, "exit": code,
+                                      "rows_expected": len(want), "rows_after": (len(got["rows"]) if got else None), "left_behind_or_extra": extra}}
+    return {"summary": {"evaluations": evals, "nontrivial": nontriv, "what": "self-weed relation with ambiguity codes / lower case / N in the weed FASTA, forward and --reverse"}}
 
 def joint_reads_cli(ctx, broken):
     """several read samples in ONE `ska build -f list`: column j of the joint file must be the file of
